@@ -58,6 +58,17 @@ def impl_summary(prog):
                             "errored": [s.name for s in col.errored_scenarios]}
     except Exception as e:          # noqa
         out["collector"] = {"EXC": "%s: %s" % (type(e).__name__, e)}
+    # the collector alone, on the model exactly as a run without any reporter left it (outlines that were never reached
+    # have not been expanded by anybody yet)
+    def collect_first(runner, feats):
+        try:
+            c2 = SummaryCollector()
+            c2.visit_many(feats)
+            return {"tables": {k: getattr(c2.summary_counts, k).as_dict() for k in ("features", "rules", "scenarios", "steps")},
+                    "failing": [s.name for s in c2.failed_scenarios], "errored": [s.name for s in c2.errored_scenarios]}
+        except Exception as e:      # noqa
+            return {"EXC": "%s: %s" % (type(e).__name__, e)}
+    out["collector_alone"] = runprog.run_program(prog, after_run=collect_first)["after_run"]
     # census straight from the model objects
     cen = {"feature": {}, "rule": {}, "scenario": {}, "step": {}}
     order = []
@@ -147,19 +158,21 @@ def oracle(prog, obs):
         out.append(("reporter lists failing scenarios %s, failed ones are %s" % (obs["failing"], want_fail), "failing-list"))
     if obs["errored"] != want_err:
         out.append(("reporter lists errored scenarios %s, error-class ones are %s" % (obs["errored"], want_err), "errored-list"))
-    col = obs["collector"]
-    if "EXC" in col:
-        out.append(("collector raised %s" % col["EXC"], "collector-exception"))
-    else:
-        for k in kinds:
-            tab = col["tables"][k + "s"]
-            n = sum(cen[k].values())
-            if sum(tab.values()) != n or any(tab.get(s, 0) != cen[k].get(s, 0) for s in set(tab) | set(cen[k])):
-                out.append(("collector: %s counts %s, census %s" % (k, {s: c for s, c in tab.items() if c}, cen[k]), "collector-count:%s" % k))
-        if col["failing"] != want_fail:
-            out.append(("collector lists failing scenarios %s, failed ones are %s" % (col["failing"], want_fail), "collector-failing-list"))
-        if col["errored"] != want_err:
-            out.append(("collector lists errored scenarios %s, error-class ones are %s" % (col["errored"], want_err), "collector-errored-list"))
+    for label, col in (("collector", obs["collector"]), ("collector (first reader of the model after the run)", obs.get("collector_alone"))):
+        if col is None:
+            continue
+        if "EXC" in col:
+            out.append(("%s raised %s" % (label, col["EXC"]), "collector-exception"))
+        else:
+            for k in kinds:
+                tab = col["tables"][k + "s"]
+                n = sum(cen[k].values())
+                if sum(tab.values()) != n or any(tab.get(s, 0) != cen[k].get(s, 0) for s in set(tab) | set(cen[k])):
+                    out.append(("%s: %s counts %s, census %s" % (label, k, {s: c for s, c in tab.items() if c}, cen[k]), "collector-count:%s" % k))
+            if col["failing"] != want_fail:
+                out.append(("%s lists failing scenarios %s, failed ones are %s" % (label, col["failing"], want_fail), "collector-failing-list"))
+            if col["errored"] != want_err:
+                out.append(("%s lists errored scenarios %s, error-class ones are %s" % (label, col["errored"], want_err), "collector-errored-list"))
     for fmt in FORMATS:
         lines = obs["lines"][fmt]
         if "EXC" in lines:
